@@ -90,6 +90,8 @@ pub enum Out {
     ResVec(Result<Vec<Token>, ErrTok>),
     PVec(Vec<PTok>),
     PResVec(Result<Vec<PTok>, ErrTok>),
+    /// a single output without drop glue (collections over `ScriptFut<PlainND>`)
+    PTok(PTok),
 }
 
 pub enum PollOut {
@@ -150,6 +152,53 @@ fn st<T>(p: Poll<Option<T>>, f: impl FnOnce(T) -> Out) -> PollOut {
     }
 }
 
+/// The flavours of scripted future a collection can be instantiated with.
+pub trait ChildFut: Future + Sized + 'static {
+    fn make(id: Cid) -> Self;
+    fn cid(&self) -> Cid;
+    fn wrap(out: Self::Output) -> Out;
+    /// false = this type has no destructor, its drop is not observable
+    const TRACKED: bool;
+}
+impl ChildFut for ScriptFut<Plain> {
+    fn make(id: Cid) -> Self {
+        ScriptFut::new(id)
+    }
+    fn cid(&self) -> Cid {
+        self.id
+    }
+    fn wrap(out: Token) -> Out {
+        Out::Tok(out)
+    }
+    const TRACKED: bool = true;
+}
+/// future without drop glue, output with drop glue
+impl ChildFut for NdFut<Plain> {
+    fn make(id: Cid) -> Self {
+        NdFut::new(id)
+    }
+    fn cid(&self) -> Cid {
+        self.id
+    }
+    fn wrap(out: Token) -> Out {
+        Out::Tok(out)
+    }
+    const TRACKED: bool = false;
+}
+/// future with drop glue, output without
+impl ChildFut for ScriptFut<PlainND> {
+    fn make(id: Cid) -> Self {
+        ScriptFut::new(id)
+    }
+    fn cid(&self) -> Cid {
+        self.id
+    }
+    fn wrap(out: PTok) -> Out {
+        Out::PTok(out)
+    }
+    const TRACKED: bool = true;
+}
+
 macro_rules! relocate {
     () => {
         fn relocate(self: Box<Self>) -> Box<dyn Subject> {
@@ -163,13 +212,13 @@ macro_rules! relocate {
 }
 
 // ---- FuturesUnorderedBounded -------------------------------------------------------------------
-pub struct SUB(pub FuturesUnorderedBounded<ScriptFut<Plain>>);
-impl Subject for SUB {
+pub struct SUB<F: ChildFut>(pub FuturesUnorderedBounded<F>);
+impl<F: ChildFut> Subject for SUB<F> {
     fn poll(&mut self, cx: &mut Context<'_>) -> PollOut {
-        st(Pin::new(&mut self.0).poll_next(cx), Out::Tok)
+        st(Pin::new(&mut self.0).poll_next(cx), F::wrap)
     }
     fn push(&mut self, child: Cid, how: PushHow) -> PushOut {
-        let f = ScriptFut::<Plain>::new(child);
+        let f = F::make(child);
         match how {
             PushHow::Back => {
                 self.0.push(f);
@@ -179,7 +228,7 @@ impl Subject for SUB {
                 Ok(()) => PushOut::Accepted,
                 Err(f) => {
                     let _cb = crate::alloc::CbGuard::new();
-                    PushOut::Refused(f.id, Box::new(f))
+                    PushOut::Refused(f.cid(), Box::new(f))
                 }
             },
             _ => {
@@ -203,13 +252,13 @@ impl Subject for SUB {
 }
 
 // ---- FuturesUnordered --------------------------------------------------------------------------
-pub struct SUU(pub FuturesUnordered<ScriptFut<Plain>>);
-impl Subject for SUU {
+pub struct SUU<F: ChildFut>(pub FuturesUnordered<F>);
+impl<F: ChildFut> Subject for SUU<F> {
     fn poll(&mut self, cx: &mut Context<'_>) -> PollOut {
-        st(Pin::new(&mut self.0).poll_next(cx), Out::Tok)
+        st(Pin::new(&mut self.0).poll_next(cx), F::wrap)
     }
     fn push(&mut self, child: Cid, how: PushHow) -> PushOut {
-        let f = ScriptFut::<Plain>::new(child);
+        let f = F::make(child);
         match how {
             PushHow::Back | PushHow::TryBack => {
                 self.0.push(f);
@@ -236,13 +285,13 @@ impl Subject for SUU {
 }
 
 // ---- FuturesOrderedBounded ---------------------------------------------------------------------
-pub struct SOB(pub FuturesOrderedBounded<ScriptFut<Plain>>, pub usize);
-impl Subject for SOB {
+pub struct SOB<F: ChildFut>(pub FuturesOrderedBounded<F>, pub usize);
+impl<F: ChildFut> Subject for SOB<F> {
     fn poll(&mut self, cx: &mut Context<'_>) -> PollOut {
-        st(Pin::new(&mut self.0).poll_next(cx), Out::Tok)
+        st(Pin::new(&mut self.0).poll_next(cx), F::wrap)
     }
     fn push(&mut self, child: Cid, how: PushHow) -> PushOut {
-        let f = ScriptFut::<Plain>::new(child);
+        let f = F::make(child);
         let r = match how {
             PushHow::Back => {
                 self.0.push_back(f);
@@ -259,12 +308,12 @@ impl Subject for SOB {
             Ok(()) => PushOut::Accepted,
             Err(f) => {
                     let _cb = crate::alloc::CbGuard::new();
-                    PushOut::Refused(f.id, Box::new(f))
+                    PushOut::Refused(f.cid(), Box::new(f))
                 }
         }
     }
     fn extend(&mut self, children: &[Cid]) -> bool {
-        self.0.extend(children.iter().map(|&c| ScriptFut::<Plain>::new(c)));
+        self.0.extend(children.iter().map(|&c| F::make(c)));
         true
     }
     fn obs(&self) -> Obs {
@@ -282,13 +331,13 @@ impl Subject for SOB {
 }
 
 // ---- FuturesOrdered ----------------------------------------------------------------------------
-pub struct SOU(pub FuturesOrdered<ScriptFut<Plain>>);
-impl Subject for SOU {
+pub struct SOU<F: ChildFut>(pub FuturesOrdered<F>);
+impl<F: ChildFut> Subject for SOU<F> {
     fn poll(&mut self, cx: &mut Context<'_>) -> PollOut {
-        st(Pin::new(&mut self.0).poll_next(cx), Out::Tok)
+        st(Pin::new(&mut self.0).poll_next(cx), F::wrap)
     }
     fn push(&mut self, child: Cid, how: PushHow) -> PushOut {
-        let f = ScriptFut::<Plain>::new(child);
+        let f = F::make(child);
         match how {
             PushHow::Back | PushHow::TryBack => self.0.push_back(f),
             PushHow::Front | PushHow::TryFront => self.0.push_front(f),
@@ -296,7 +345,7 @@ impl Subject for SOU {
         PushOut::Accepted
     }
     fn extend(&mut self, children: &[Cid]) -> bool {
-        self.0.extend(children.iter().map(|&c| ScriptFut::<Plain>::new(c)));
+        self.0.extend(children.iter().map(|&c| F::make(c)));
         true
     }
     fn obs(&self) -> Obs {
@@ -569,6 +618,9 @@ pub struct Cfg {
     /// collect() from an iterator whose size_hint lower bound is below its real length
     #[serde(default)]
     pub inexact_iter: bool,
+    /// collections: 0 = futures and outputs with drop glue, 1 = futures without drop glue, 2 = outputs without
+    #[serde(default)]
+    pub child_kind: u8,
 }
 
 fn initial_ids(cfg: &Cfg, role: Role) -> Vec<Cid> {
@@ -613,59 +665,72 @@ fn make_upstream<S: SKind>(cfg: &Cfg, limit: usize, ordered: bool) -> ScriptStre
     ScriptStream::new(id)
 }
 
-/// Build the subject. Runs constructor code of the crate inside `sut`. May panic (e.g. D1) - the
-/// caller wraps it in catch_unwind.
-pub fn build(subj: Subj, cfg: &Cfg) -> Box<dyn Subject> {
+fn build_coll<F: ChildFut>(subj: Subj, cfg: &Cfg) -> Box<dyn Subject> {
     let cap = cfg.cap;
+    let ids = if cfg.ctor == 2 { initial_ids(cfg, Role::Fut) } else { Vec::new() };
+    if !F::TRACKED {
+        w(|x| x.untracked_futs = true);
+        w(|x| {
+            for &i in &ids {
+                x.children[i as usize].no_drop_glue = true;
+            }
+        });
+    }
+    let inexact = cfg.inexact_iter;
     match subj {
         Subj::UB => {
             if cfg.ctor == 2 {
-                let ids = initial_ids(cfg, Role::Fut);
-                Box::new(SUB(sut(|| it(ids, cfg.inexact_iter).map(ScriptFut::new).collect())))
+                Box::new(SUB::<F>(sut(|| it(ids, inexact).map(F::make).collect())))
             } else {
-                Box::new(SUB(sut(|| FuturesUnorderedBounded::new(cap))))
+                Box::new(SUB::<F>(sut(|| FuturesUnorderedBounded::new(cap))))
             }
         }
         Subj::UU => match cfg.ctor {
-            2 => {
-                let ids = initial_ids(cfg, Role::Fut);
-                Box::new(SUU(sut(|| it(ids, cfg.inexact_iter).map(ScriptFut::new).collect())))
-            }
-            1 => Box::new(SUU(sut(|| FuturesUnordered::with_capacity(cap)))),
-            _ => Box::new(SUU(sut(FuturesUnordered::new))),
+            2 => Box::new(SUU::<F>(sut(|| it(ids, inexact).map(F::make).collect()))),
+            1 => Box::new(SUU::<F>(sut(|| FuturesUnordered::with_capacity(cap)))),
+            _ => Box::new(SUU::<F>(sut(FuturesUnordered::new))),
         },
         Subj::OB => {
             if cfg.ctor == 2 {
-                let ids = initial_ids(cfg, Role::Fut);
                 let n = ids.len();
-                Box::new(SOB(sut(|| it(ids, cfg.inexact_iter).map(ScriptFut::new).collect()), n))
+                Box::new(SOB::<F>(sut(|| it(ids, inexact).map(F::make).collect()), n))
             } else {
                 let mut q = sut(|| FuturesOrderedBounded::new(cap));
                 if cfg.start_index != 0 {
                     q.verif_seed_indices(cfg.start_index as usize);
                 }
-                Box::new(SOB(q, cap))
+                Box::new(SOB::<F>(q, cap))
             }
         }
-        Subj::OU => match cfg.ctor {
-            2 => {
-                let ids = initial_ids(cfg, Role::Fut);
-                Box::new(SOU(sut(|| it(ids, cfg.inexact_iter).map(ScriptFut::new).collect())))
-            }
+        _ => match cfg.ctor {
+            2 => Box::new(SOU::<F>(sut(|| it(ids, inexact).map(F::make).collect()))),
             1 => {
                 let mut q = sut(|| FuturesOrdered::with_capacity(cap));
                 if cfg.start_index != 0 {
                     q.verif_seed_indices(cfg.start_index as usize);
                 }
-                Box::new(SOU(q))
+                Box::new(SOU::<F>(q))
             }
             _ => {
                 let mut q = sut(FuturesOrdered::new);
                 if cfg.start_index != 0 {
                     q.verif_seed_indices(cfg.start_index as usize);
                 }
-                Box::new(SOU(q))
+                Box::new(SOU::<F>(q))
             }
+        },
+    }
+}
+
+/// Build the subject. Runs constructor code of the crate inside `sut`. May panic (e.g. D1) - the
+/// caller wraps it in catch_unwind.
+pub fn build(subj: Subj, cfg: &Cfg) -> Box<dyn Subject> {
+    let cap = cfg.cap;
+    match subj {
+        Subj::UB | Subj::UU | Subj::OB | Subj::OU => match cfg.child_kind {
+            1 => build_coll::<NdFut<Plain>>(subj, cfg),
+            2 => build_coll::<ScriptFut<PlainND>>(subj, cfg),
+            _ => build_coll::<ScriptFut<Plain>>(subj, cfg),
         },
         Subj::MB => {
             let ids = initial_ids(cfg, Role::Source);
